@@ -38,6 +38,29 @@ def build_record(n, circular, genes):
     return record
 
 
+def form_candidates(record):
+    """ Record.create_candidate_clusters with the CandidateCluster constructor of the formation module and the
+        formation function observed: -> (every candidate constructed, in construction order; the returned list) """
+    from antismash.common.secmet.features.candidate_cluster import formation
+    from antismash.common.secmet import record as record_module
+    built, returned = [], []
+    constructor, former = formation.CandidateCluster, record_module.create_candidates_from_protoclusters
+
+    def construct(*args, **kwargs):
+        built.append(constructor(*args, **kwargs))
+        return built[-1]
+
+    def form(*args, **kwargs):
+        returned.extend(former(*args, **kwargs))
+        return list(returned)
+    formation.CandidateCluster, record_module.create_candidates_from_protoclusters = construct, form
+    try:
+        record.create_candidate_clusters()
+    finally:
+        formation.CandidateCluster, record_module.create_candidates_from_protoclusters = constructor, former
+    return built, returned
+
+
 def make_area(kind, s, e):
     from antismash.common.secmet.test.helpers import DummySubRegion, DummyCandidateCluster, DummyProtocluster
     if kind == "sub":
@@ -1123,6 +1146,29 @@ def logged_record(n, circular, genes):
     return record
 
 
+def form_candidates(record):
+    """ Record.create_candidate_clusters with the CandidateCluster constructor of the formation module and the
+        formation function observed: -> (every candidate constructed, in construction order; the returned list) """
+    from antismash.common.secmet.features.candidate_cluster import formation
+    from antismash.common.secmet import record as record_module
+    built, returned = [], []
+    constructor, former = formation.CandidateCluster, record_module.create_candidates_from_protoclusters
+
+    def construct(*args, **kwargs):
+        built.append(constructor(*args, **kwargs))
+        return built[-1]
+
+    def form(*args, **kwargs):
+        returned.extend(former(*args, **kwargs))
+        return list(returned)
+    formation.CandidateCluster, record_module.create_candidates_from_protoclusters = construct, form
+    try:
+        record.create_candidate_clusters()
+    finally:
+        formation.CandidateCluster, record_module.create_candidates_from_protoclusters = constructor, former
+    return built, returned
+
+
 def run_links(chk, rng, total, cases, impl_outs):
     """ fn 5: histories of add_protocluster / add_candidate_cluster / add_subregion / create_regions / clear_* on a real
         Record; afterwards every protocluster's parent, every area's parent and every gene's region link is compared
@@ -1138,6 +1184,13 @@ def run_links(chk, rng, total, cases, impl_outs):
         record = logged_record(n, circular, genes)
         gene_id = {cds.get_name(): i for i, cds in enumerate(record.get_cds_features())}
         ids, protos, areas, ops = {}, [], [], []
+        forming = rng.random() < 0.5     # histories with create_candidate_clusters: genes define products, so hybrids form
+        if forming:
+            from antismash.common.secmet.qualifiers.gene_functions import GeneFunction
+            for cds in record.get_cds_features():
+                for prod in range(4):
+                    if rng.random() < 0.5:
+                        cds.gene_functions.add(GeneFunction.CORE, "tool", "desc", f"p{prod}")
 
         def grouping():
             out = [len(record.get_regions())]
@@ -1159,7 +1212,55 @@ def run_links(chk, rng, total, cases, impl_outs):
         try:
             for _ in range(rng.choice([2, 4, 6, 9, 12, 16])):
                 kind = rng.choice(["sub", "sub", "cand", "cand", "create", "create", "clear_regions", "clear_cands", "clear_subs",
-                                   "clear_protos", "strip", "again", "again", "again"])
+                                   "clear_protos", "strip", "again", "again", "again"]
+                                  + (["protos"] * 8 + ["form"] * 12 + ["clear_cands"] * 4 if forming else []))
+                if kind == "protos":
+                    # two to four protoclusters close to each other: cores inside independent extents, products of the genes
+                    base = rng.randrange(0, n - 120)
+                    anchors = [g for g in genes if 61 <= g[0] and g[0] + 40 <= n]
+                    if anchors and rng.random() < 0.35:
+                        # a hybrid pair ending together, a third protocluster interleaved with both: the neighbouring
+                        # group repeats the interleaved one (built and dropped as redundant)
+                        gs, ge = rng.choice(anchors)
+                        cds = next(c for c in record.get_cds_features() if int(c.location.start) == gs)
+                        pa, pb, pc = rng.sample(range(4), 3)
+                        for prod in (pa, pb):
+                            if f"p{prod}" not in [f.product for f in cds.gene_functions.get_by_function(GeneFunction.CORE)]:
+                                cds.gene_functions.add(GeneFunction.CORE, "tool", "desc", f"p{prod}")
+                        b = gs - 61
+                        layout = [(pa, b, ge + 3, gs - 1, ge + 3), (pb, b + rng.choice([0, 20]), ge + 3, gs - 21, ge + 3),
+                                  (pc, b + 10, min(n, ge + 33), b + 15, gs - 6)]
+                        for prod, s, e, core_s, core_e in layout:
+                            child = DummyProtocluster(start=s, end=e, core_start=core_s, core_end=core_e, product=f"p{prod}")
+                            ids[id(child)] = 100 + len(protos)
+                            protos.append(child)
+                            record.add_protocluster(child)
+                            ops.append([0, ids[id(child)]])
+                        chk.count("link_form_pattern")
+                        continue
+                    for prod in rng.sample(range(4), rng.choice([2, 3, 3, 4])):
+                        # extents that often coincide in one or both ends (redundant and promoted candidates)
+                        s = base + rng.choice([0, 0, 10, 20, rng.randrange(0, 40)])
+                        e = min(n, base + rng.choice([60, 60, 80, 100, rng.randrange(50, 120)]))
+                        core_s = rng.randrange(s, e - 4)
+                        core_e = rng.randrange(core_s + 1, e + 1)
+                        child = DummyProtocluster(start=s, end=e, core_start=core_s, core_end=core_e, product=f"p{prod}")
+                        ids[id(child)] = 100 + len(protos)
+                        protos.append(child)
+                        record.add_protocluster(child)
+                        ops.append([0, ids[id(child)]])
+                    continue
+                if kind == "form":
+                    if record.get_candidate_clusters() or not record.get_protoclusters():
+                        continue
+                    built, returned = form_candidates(record)
+                    for obj in built:
+                        ids[id(obj)] = 200 + len(areas)
+                        areas.append(obj)
+                    enc = lambda cs: [len(cs)] + [x for c in cs for x in [ids[id(c)], len(c.protoclusters)] + [ids[id(q)] for q in c.protoclusters]]
+                    ops.append([10] + enc(built) + enc(returned))
+                    chk.count("link_form_dropped" if len(built) > len(returned) else "link_form_all_kept")
+                    continue
                 if kind == "again":
                     # a feature that a clear removed is handed to the record again (the same object)
                     absent = [a for a in areas if not any(a is x for x in record.get_subregions())
